@@ -602,6 +602,25 @@ def stepRest (d : DW) (line : String) : DW × String :=
        | .ok (l, _) => (d, " ; ".intercalate (l.map fun (I, name) => s!"{name} {fmtInstance I}"))
        | .error _ => (d, "raise"))
     | _ => (d, "bad-op")
+  | "genh" :: rest =>
+    -- `h` direct calls of the public helper `create_random_operation()` (no machine pool given: all machines of the largest
+    -- shop), then a pass over the generator: the helper consumes draws and nothing else
+    match ints? rest with
+    | some (j1 :: j2 :: m1 :: m2 :: d1 :: d2 :: al :: rc :: k1 :: k2 :: h :: n :: draws) =>
+      let p : GenParams := ⟨(j1.toNat, j2.toNat), (m1.toNat, m2.toNat), (d1, d2), al != 0, rc != 0, (k1.toNat, k2.toNat)⟩
+      let rec helper : Nat → List Nat → List String → Except GenErr (List String × List Nat)
+        | 0, ds, acc => .ok (acc.reverse, ds)
+        | k + 1, ds, acc =>
+          match genOp p (List.range m2.toNat) ds with
+          | .error e => .error e
+          | .ok (op, _, ds') => helper k ds' (s!"{",".intercalate (op.machines.map toString)}:{op.dur}" :: acc)
+      (match helper h.toNat (draws.map Int.toNat) [] with
+       | .error _ => (d, "raise")
+       | .ok (ops, ds) =>
+         match iterate p n.toNat { draws := ds } with
+         | .ok (l, _) => (d, "ops " ++ " ".intercalate ops ++ " ; " ++ " ; ".intercalate (l.map fun (I, name) => s!"{name} {fmtInstance I}"))
+         | .error _ => (d, "raise"))
+    | _ => (d, "bad-op")
   | ["graph", b] =>
     match parseBuilder b with
     | some bb => (d, fmtGraph (build bb d.w.cfg.I))
